@@ -1,12 +1,257 @@
 (* MgrProofs.v — proofs about MgrModel (C61). *)
-Require Import SquidV.Bytes SquidV.TokModel SquidV.B64Model SquidV.MgrModel.
+Require Import SquidV.Bytes SquidV.TokModel SquidV.TokProofs SquidV.B64Model SquidV.MgrModel.
 Require Import SquidV.gen.Mgr_gen.
 Require Import ZifyBool ZifyN ZifyNat.
 Local Open Scope N_scope.
 
+(* ------------------------------------------------------------------ *)
+(* list vocabulary                                                      *)
+
+Lemma leqb_true (a : bytes) : forall b, list_eqb a b = true -> a = b.
+Proof.
+  induction a as [|x a IH]; intros [|y b] H; cbn [list_eqb] in H; try discriminate; [reflexivity|].
+  apply andb_true_iff in H. destruct H as [H1 H2]. apply N.eqb_eq in H1. subst y. f_equal. apply IH, H2.
+Qed.
+
+Lemma leqb_refl (a : bytes) : list_eqb a a = true.
+Proof. induction a as [|x a IH]; cbn [list_eqb]; [reflexivity|]. rewrite N.eqb_refl, IH. reflexivity. Qed.
+
+Lemma leqb_false (a b : bytes) : list_eqb a b = false -> a <> b.
+Proof. intros H E. subst b. rewrite leqb_refl in H. discriminate. Qed.
+
+Lemma starts_with_split l p : starts_with l p = true -> exists r, l = p ++ r.
+Proof.
+  revert l; induction p as [|y p IH]; intros l H; [exists l; reflexivity|].
+  destruct l as [|x l]; cbn [starts_with] in H; [discriminate|].
+  apply andb_true_iff in H. destruct H as [H1 H2]. apply N.eqb_eq in H1. subst y.
+  destruct (IH _ H2) as [r Hr]. exists r. cbn [app]. now rewrite Hr.
+Qed.
+
+Lemma starts_with_app p r : starts_with (p ++ r) p = true.
+Proof. induction p as [|y p IH]; cbn [app starts_with]; [destruct r; reflexivity|]. now rewrite N.eqb_refl, IH. Qed.
+
+(* a maximal run followed by a stopping byte (or the end) is what span returns *)
+Lemma span_run (p : N -> bool) (a r : bytes) :
+  forallb p a = true ->
+  match r with [] => True | y :: _ => p y = false end ->
+  span p (a ++ r) = (a, r).
+Proof.
+  intros Ha Hr. induction a as [|x a IH]; cbn [app].
+  - destruct r as [|y r]; cbn [span]; [reflexivity|]. now rewrite Hr.
+  - cbn [forallb] in Ha. apply andb_true_iff in Ha. destruct Ha as [Hx Ha].
+    cbn [span]. rewrite Hx, (IH Ha). reflexivity.
+Qed.
+
+Lemma span_eq (p : N -> bool) (l a r : bytes) :
+  span p l = (a, r) ->
+  l = a ++ r /\ forallb p a = true /\ match r with [] => True | y :: _ => p y = false end.
+Proof.
+  intros H. pose proof (span_app p l) as H1. pose proof (span_all p l) as H2. pose proof (span_stop p l) as H3.
+  rewrite H in H1, H2, H3. cbn [fst snd] in *. auto.
+Qed.
+
+Lemma forallb_app' {A} (p : A -> bool) a b : forallb p (a ++ b) = forallb p a && forallb p b.
+Proof. induction a as [|x a IH]; cbn [app forallb]; [reflexivity|]. now rewrite IH, andb_assoc. Qed.
+
+Definition nonul (c : N) : bool := negb (c =? 0).
+Definition nopct (c : N) : bool := negb (c =? 37).
+
+Lemma cstr_app (a b : bytes) : forallb nonul a = true -> cstr (a ++ b) = a ++ cstr b.
+Proof.
+  intros Ha. unfold cstr. induction a as [|x a IH]; cbn [app]; [reflexivity|].
+  cbn [forallb] in Ha. apply andb_true_iff in Ha. destruct Ha as [Hx Ha]. unfold nonul in Hx.
+  cbn [span]. rewrite Hx. specialize (IH Ha).
+  destruct (span (fun c => negb (c =? 0)) (a ++ b)) as [u v] eqn:E. cbn [fst] in *. now rewrite IH.
+Qed.
+
+(* ------------------------------------------------------------------ *)
+(* percent coding                                                       *)
+
+Lemma uri_encode_app ok a b : uri_encode ok (a ++ b) = uri_encode ok a ++ uri_encode ok b.
+Proof. unfold uri_encode. apply flat_map_app. Qed.
+
+Lemma uri_encode_id ok a : forallb ok a = true -> uri_encode ok a = a.
+Proof.
+  induction a as [|x a IH]; intros H; [reflexivity|].
+  cbn [forallb] in H. apply andb_true_iff in H. destruct H as [Hx Ha].
+  unfold uri_encode in *. cbn [flat_map]. rewrite Hx, (IH Ha). reflexivity.
+Qed.
+
+Lemma uri_decode_app (a b : bytes) :
+  forallb nopct a = true -> uri_decode (a ++ b) = option_map (app a) (uri_decode b).
+Proof.
+  intros Ha. induction a as [|x a IH]; cbn [app].
+  - destruct (uri_decode b); reflexivity.
+  - cbn [forallb] in Ha. apply andb_true_iff in Ha. destruct Ha as [Hx Ha]. unfold nopct in Hx.
+    cbn [uri_decode]. apply negb_true_iff in Hx. rewrite Hx, (IH Ha).
+    destruct (uri_decode b); reflexivity.
+Qed.
+
+(* whatever DecodeOrDupe does to the tail, a '%'-free head survives it *)
+Lemma decode_or_dupe_head (a b : bytes) :
+  forallb nopct a = true -> exists t, decode_or_dupe (a ++ b) = a ++ t.
+Proof.
+  intros Ha. unfold decode_or_dupe. rewrite (uri_decode_app a b Ha).
+  destruct (uri_decode b) as [d|]; cbn [option_map]; eauto.
+Qed.
+
+(* ------------------------------------------------------------------ *)
+(* the manager regex                                                    *)
+
+Definition nocolon (c : N) : bool := negb (c =? 58).
+Definition noslash (c : N) : bool := negb (c =? 47).
+
+(* what `^[^:]+://[^/]+<lit>` (REG_EXTENDED, no REG_ICASE) means on a C string *)
+Definition mgr_regex_spec (s : bytes) : Prop :=
+  exists a b rest,
+    cstr s = a ++ [58;47;47] ++ b ++ mgr_regex_lit ++ rest
+    /\ a <> [] /\ forallb nocolon a = true
+    /\ b <> [] /\ forallb noslash b = true.
+
+Lemma shape_ok : mgr_acl_shape_ok = true.
+Proof. vm_compute. reflexivity. Qed.
+
+Lemma lit_is_prefix : mgr_regex_lit = mgr_prefix.
+Proof. vm_compute. reflexivity. Qed.
+
+Lemma lit_head : exists l, mgr_regex_lit = 47 :: l.
+Proof. eexists. vm_compute. reflexivity. Qed.
+
+Lemma drop3 (x y z : N) (r : bytes) : dropN 3 (x :: y :: z :: r) = r.
+Proof. change (dropN 3 (x :: y :: z :: r)) with (dropN 0 r). apply dropN_0. Qed.
+
+Lemma regex_match_iff s : mgr_regex_match s = true <-> mgr_regex_spec s.
+Proof.
+  unfold mgr_regex_match, mgr_regex_spec. destruct lit_head as [lit' Hlit].
+  split.
+  - destruct (span (fun c => negb (c =? 58)) (cstr s)) as [a r1] eqn:E1.
+    destruct a as [|a0 a']; [discriminate|].
+    destruct (starts_with r1 [58;47;47]) eqn:E2; [|discriminate].
+    destruct (span (fun c => negb (c =? 47)) (dropN 3 r1)) as [b r3] eqn:E3.
+    destruct b as [|b0 b']; [discriminate|]. intros H.
+    apply span_eq in E1. destruct E1 as (Hs & Ha & _).
+    apply starts_with_split in E2. destruct E2 as [r2 Hr1]. subst r1.
+    cbn [app] in E3. rewrite drop3 in E3.
+    apply span_eq in E3. destruct E3 as (Hr2 & Hb & _).
+    apply starts_with_split in H. destruct H as [rest Hr3].
+    exists (a0 :: a'), (b0 :: b'), rest. subst r3 r2. repeat split; try exact Ha; try exact Hb; try discriminate.
+    exact Hs.
+  - intros (a & b & rest & Hs & Hane & Ha & Hbne & Hb). rewrite Hs.
+    rewrite (span_run (fun c => negb (c =? 58)) a ([58;47;47] ++ b ++ mgr_regex_lit ++ rest) Ha) by reflexivity.
+    destruct a as [|a0 a']; [congruence|].
+    rewrite (starts_with_app [58;47;47] (b ++ mgr_regex_lit ++ rest)).
+    cbn [app]. rewrite drop3.
+    rewrite (span_run (fun c => negb (c =? 47)) b (mgr_regex_lit ++ rest) Hb) by (rewrite Hlit; reflexivity).
+    destruct b as [|b0 b']; [congruence|]. apply starts_with_app.
+Qed.
+
+(* ------------------------------------------------------------------ *)
+(* every request the cache manager would handle matches `manager` (no user-info in the effective URI)  *)
+
+Definition hostchar (c : N) : bool := negb (c =? 47) && negb (c =? 37) && negb (c =? 0).
+Definition digitc (c : N) : bool := (48 <=? c) && (c <=? 57).
+(* visible_hostname is a non-empty string without '/', '%' and NUL *)
+Definition host_ok (h : bytes) : Prop := h <> [] /\ forallb hostchar h = true.
+
+Ltac Zify.zify_post_hook ::= Z.div_mod_to_equations.
+
+Lemma hostchar_lower c : hostchar (xtolower c) = hostchar c.
+Proof.
+  unfold hostchar, xtolower. destruct ((65 <=? c) && (c <=? 90)) eqn:E; [|reflexivity]. lia.
+Qed.
+
+Lemma forallb_hostchar_lower a : forallb hostchar (lower a) = forallb hostchar a.
+Proof.
+  unfold lower. induction a as [|x a IH]; cbn [map forallb]; [reflexivity|]. now rewrite hostchar_lower, IH.
+Qed.
+
+Lemma forallb_imp {A} (p q : A -> bool) l :
+  (forall x, p x = true -> q x = true) -> forallb p l = true -> forallb q l = true.
+Proof.
+  intros Hpq. induction l as [|x l IH]; cbn [forallb]; [reflexivity|]. intros H.
+  apply andb_true_iff in H. destruct H as [Hx Hl]. now rewrite (Hpq _ Hx), (IH Hl).
+Qed.
+
+Lemma dec_aux_digits f : forall n acc, forallb digitc acc = true -> forallb digitc (dec_aux f n acc) = true.
+Proof.
+  induction f as [|f IH]; intros n acc Hacc; cbn [dec_aux]; [exact Hacc|].
+  assert (Hd : digitc (48 + n mod 10) = true) by (unfold digitc; lia).
+  destruct (n / 10 =? 0); [cbn [forallb]; now rewrite Hd, Hacc|].
+  apply IH. cbn [forallb]. now rewrite Hd, Hacc.
+Qed.
+
+Lemma dec_hostchars n : forallb hostchar (dec n) = true.
+Proof.
+  apply (forallb_imp digitc hostchar); [|apply dec_aux_digits; reflexivity].
+  intros x Hx. unfold digitc in Hx. unfold hostchar. lia.
+Qed.
+
+Lemma authority_hostchars s h port :
+  forallb hostchar h = true -> forallb hostchar (authority s h port) = true.
+Proof.
+  intros Hh. unfold authority. rewrite forallb_app', Hh. cbn [andb].
+  destruct (default_port s) as [d|]; [destruct (port =? d); [reflexivity|]|];
+    cbn [forallb]; now rewrite dec_hostchars.
+Qed.
+
+Lemma internal_host_ok e q :
+  is_internal e q = true -> host_ok (e_myhost e) ->
+  norm_host (q_host q) <> [] /\ forallb hostchar (norm_host (q_host q)) = true.
+Proof.
+  unfold is_internal, bytes_eqb_ci, host_ok. intros H [Hne Hch].
+  apply andb_true_iff in H. destruct H as [_ H]. apply leqb_true in H.
+  split.
+  - intros E. rewrite E in H. cbn in H. symmetry in H. unfold lower in H. apply map_eq_nil in H. contradiction.
+  - rewrite <- forallb_hostchar_lower, H, forallb_hostchar_lower. exact Hch.
+Qed.
+
+Lemma scheme_image_facts s : s <> SOther ->
+  scheme_image s <> [] /\ forallb nocolon (scheme_image s) = true
+  /\ forallb nopct (scheme_image s) = true /\ forallb nonul (scheme_image s) = true.
+Proof. destruct s; intros H; try congruence; repeat split; try discriminate; reflexivity. Qed.
+
+Lemma prefix_facts : forallb nopct mgr_prefix = true /\ forallb nonul mgr_prefix = true.
+Proof. split; vm_compute; reflexivity. Qed.
+
+Lemma acl_covers e q :
+  is_internal e q = true -> for_cache_manager q = true ->
+  q_scheme q <> SOther -> userinfo_part q = [] -> host_ok (e_myhost e) ->
+  acl_manager q = true.
+Proof.
+  intros Hint Hfcm Hs Hui Hho.
+  destruct (internal_host_ok e q Hint Hho) as [Hne Hhc].
+  destruct (scheme_image_facts _ Hs) as (Hine & Hic & Hip & Hin).
+  destruct prefix_facts as [Hpp Hpn].
+  unfold for_cache_manager in Hfcm. apply starts_with_split in Hfcm. destruct Hfcm as [tail Htail].
+  set (B := authority (q_scheme q) (norm_host (q_host q)) (q_port q)).
+  assert (HB : forallb hostchar B = true) by (apply authority_hostchars, Hhc).
+  assert (HBne : B <> []).
+  { unfold B, authority. destruct (norm_host (q_host q)); [congruence|discriminate]. }
+  set (X := scheme_image (q_scheme q) ++ [58;47;47] ++ B ++ mgr_prefix).
+  assert (HU : effective_uri q = X ++ tail).
+  { unfold effective_uri, X. rewrite Hui, Htail. fold B. cbn [app]. rewrite <- !app_assoc. cbn [app].
+    rewrite <- !app_assoc. reflexivity. }
+  assert (HXp : forallb nopct X = true).
+  { unfold X. rewrite !forallb_app', Hip, Hpp. cbn [forallb andb].
+    rewrite (forallb_imp hostchar nopct B); [reflexivity| |exact HB].
+    intros x Hx. unfold hostchar in Hx. unfold nopct. lia. }
+  assert (HXn : forallb nonul X = true).
+  { unfold X. rewrite !forallb_app', Hin, Hpn. cbn [forallb andb].
+    rewrite (forallb_imp hostchar nonul B); [reflexivity| |exact HB].
+    intros x Hx. unfold hostchar in Hx. unfold nonul. lia. }
+  unfold acl_manager. apply regex_match_iff. rewrite HU.
+  destruct (decode_or_dupe_head X tail HXp) as [t Ht]. rewrite Ht.
+  exists (scheme_image (q_scheme q)), B, (cstr t).
+  rewrite (cstr_app X t HXn). unfold X. rewrite lit_is_prefix.
+  repeat split; try assumption.
+  - rewrite <- !app_assoc. reflexivity.
+  - apply (forallb_imp hostchar noslash B); [|exact HB].
+    intros x Hx. unfold hostchar in Hx. unfold noslash. lia.
+Qed.
+
 (* any answer produced by the cache manager itself *)
 Definition mgr_answer (r : result) : bool :=
-  match r with RAuthReq _ | RIndex | RReport _ | RNotFound => true | _ => false end.
+  match r with RAuthReq _ | RIndex | RReport _ | RNotFound | RFuel => true | _ => false end.
 
 Lemma answer_requires_access e menu pl rules q :
   mgr_answer (handle e menu pl rules q) = true ->
@@ -15,4 +260,180 @@ Proof.
   unfold handle. intros H.
   destruct (url_check_request (q_method q) (q_scheme q)); cbn [negb] in H; [|discriminate H].
   destruct (access_allowed (acl_manager q) (e_local e) rules); cbn [negb] in H; [reflexivity|discriminate H].
+Qed.
+
+Definition no_userinfo (q : request) : Prop := allow_userinfo (q_scheme q) = false \/ q_login q = [].
+
+Lemma no_userinfo_part q : no_userinfo q -> userinfo_part q = [].
+Proof.
+  unfold no_userinfo, userinfo_part. intros [H|H]; [now rewrite H|]. rewrite H. cbn [rfc1738_unescape].
+  destruct (allow_userinfo (q_scheme q)); reflexivity.
+Qed.
+
+(* `http_access deny manager` as the first rule: no cache-manager answer of any kind *)
+Lemma deny_manager_blocks e menu pl rest q :
+  host_ok (e_myhost e) -> no_userinfo q ->
+  mgr_answer (handle e menu pl (mkRule false [AMgr] :: rest) q) = false.
+Proof.
+  intros Hho Hnu. destruct (mgr_answer (handle e menu pl (mkRule false [AMgr] :: rest) q)) eqn:E; [|reflexivity].
+  pose proof (answer_requires_access _ _ _ _ _ E) as Hacc.
+  unfold handle in E.
+  destruct (url_check_request (q_method q) (q_scheme q)) eqn:Eu; cbn [negb] in E; [|discriminate E].
+  rewrite Hacc in E. cbn [negb] in E.
+  destruct (is_internal e q) eqn:Ei; cbn [negb] in E; [|discriminate E].
+  destruct (for_cache_manager q) eqn:Ef; cbn [negb] in E; [|discriminate E].
+  assert (Hs : q_scheme q <> SOther).
+  { intros Hs. rewrite Hs in Eu. destruct (q_method q); discriminate Eu. }
+  pose proof (acl_covers e q Ei Ef Hs (no_userinfo_part q Hnu) Hho) as Hm.
+  unfold access_allowed in Hacc. cbn [eval_rules r_atoms r_allow forallb atom_holds] in Hacc.
+  rewrite Hm in Hacc. cbn in Hacc. discriminate Hacc.
+Qed.
+
+(* ------------------------------------------------------------------ *)
+(* cachemgr_passwd: the first covering line decides                     *)
+
+Definition covers_spec (e : pwent) (n : bytes) : Prop := In n (pe_actions e) \/ In kw_all (pe_actions e).
+Definition uncovered (pl : list pwent) (n : bytes) : Prop := Forall (fun e => ~ covers_spec e n) pl.
+Definition first_covering (pl : list pwent) (n : bytes) (e : pwent) : Prop :=
+  exists pre post, pl = pre ++ e :: post /\ uncovered pre n /\ covers_spec e n.
+
+Lemma covers_iff e n : covers e n = true <-> covers_spec e n.
+Proof.
+  unfold covers, covers_spec. rewrite existsb_exists. split.
+  - intros (w & Hin & Hw). apply orb_true_iff in Hw. destruct Hw as [Hw|Hw]; apply leqb_true in Hw; subst; auto.
+  - intros [H|H]; [exists n|exists kw_all]; (split; [exact H|]); rewrite leqb_refl; [reflexivity|apply orb_true_r].
+Qed.
+
+Lemma passwd_get_first pl n e : first_covering pl n e -> passwd_get pl n = Some (pe_passwd e).
+Proof.
+  intros (pre & post & Hpl & Hpre & Hc). subst pl. induction Hpre as [|x pre Hx Hpre IH]; cbn [app passwd_get].
+  - apply covers_iff in Hc. now rewrite Hc.
+  - destruct (covers x n) eqn:E; [apply covers_iff in E; contradiction|exact IH].
+Qed.
+
+Lemma passwd_get_uncovered pl n : uncovered pl n -> passwd_get pl n = None.
+Proof.
+  intros H. induction H as [|x pl Hx Hpl IH]; cbn [passwd_get]; [reflexivity|].
+  destruct (covers x n) eqn:E; [apply covers_iff in E; contradiction|exact IH].
+Qed.
+
+Lemma passwd_get_cases pl n :
+  (exists e, first_covering pl n e /\ passwd_get pl n = Some (pe_passwd e)) \/ (uncovered pl n /\ passwd_get pl n = None).
+Proof.
+  induction pl as [|x pl IH]; cbn [passwd_get].
+  - right. split; [constructor|reflexivity].
+  - destruct (covers x n) eqn:E.
+    + left. exists x. split; [|reflexivity]. exists [], pl. repeat split; [constructor|now apply covers_iff].
+    + assert (Hx : ~ covers_spec x n) by (intros H; apply covers_iff in H; congruence).
+      destruct IH as [(e & (pre & post & Hpl & Hpre & Hc) & Hg)|[Hu Hg]].
+      * left. exists e. split; [|exact Hg]. exists (x :: pre), post. subst pl. repeat split; [constructor; assumption|exact Hc].
+      * right. split; [constructor; assumption|exact Hg].
+Qed.
+
+(* ------------------------------------------------------------------ *)
+(* credentials: RFC 7617 as squid reads it                              *)
+
+(* `field` is the Authorization value; user and pass are what base64(user ":" pass) decodes to *)
+Definition basic_credentials (field user pass : bytes) : Prop :=
+  exists sch ws txt,
+    cstr field = sch ++ ws ++ txt /\ lower sch = kw_basic
+    /\ ws <> [] /\ forallb xisspace ws = true
+    /\ b64_decode true txt = Some (user ++ 58 :: pass)
+    /\ forallb nocolon user = true.
+
+Lemma takeN_dropN' {A} n (l : list A) : l = takeN n l ++ dropN n l.
+Proof. symmetry. apply takeN_dropN. Qed.
+
+Lemma auth_token_spec f tok :
+  get_auth_token (Some f) = tok -> tok <> [] ->
+  exists sch ws txt, cstr f = sch ++ ws ++ txt /\ lower sch = kw_basic /\ ws <> [] /\ forallb xisspace ws = true
+                     /\ b64_decode true txt = Some tok.
+Proof.
+  unfold get_auth_token. intros H Hne.
+  destruct (list_eqb (lower (takeN 5 (cstr f))) kw_basic) eqn:E1; cbn [negb] in H; [|congruence].
+  apply leqb_true in E1.
+  destruct (dropN 5 (cstr f)) as [|c r] eqn:E2; [congruence|].
+  destruct (xisspace c) eqn:E3; cbn [negb] in H; [|congruence].
+  destruct (span xisspace (c :: r)) as [ws r'] eqn:E4. cbn [snd] in H.
+  destruct r' as [|d r'']; [congruence|].
+  destruct (b64_decode true (d :: r'')) as [t|] eqn:E5; [|congruence]. subst t.
+  assert (Hwsne : ws <> []).
+  { cbn [span] in E4. rewrite E3 in E4. destruct (span xisspace r) as [u v]. injection E4 as Hw _. subst ws. discriminate. }
+  apply span_eq in E4. destruct E4 as (Hcr & Hws & _).
+  exists (takeN 5 (cstr f)), ws, (d :: r''). repeat split; try assumption.
+  rewrite <- Hcr, <- E2. apply takeN_dropN'.
+Qed.
+
+Lemma supplied_password_spec field pass :
+  supplied_password field = pass -> pass <> [] ->
+  exists f user, field = Some f /\ basic_credentials f user pass.
+Proof.
+  unfold supplied_password. intros H Hne.
+  destruct (span (fun c => negb (c =? 58)) (get_auth_token field)) as [user rest] eqn:E.
+  destruct rest as [|c pw]; [congruence|]. subst pw.
+  apply span_eq in E. destruct E as (Ht & Hu & Hc). apply negb_false_iff, N.eqb_eq in Hc. subst c.
+  destruct field as [f|]; [|destruct user; discriminate Ht].
+  assert (Htne : get_auth_token (Some f) <> []) by (rewrite Ht; destruct user; discriminate).
+  destruct (auth_token_spec f _ eq_refl Htne) as (sch & ws & txt & H1 & H2 & H3 & H4 & H5).
+  exists f, user. split; [reflexivity|]. exists sch, ws, txt. rewrite Ht in H5. repeat split; assumption.
+Qed.
+
+Lemma check_password_false pl a pw :
+  check_password pl a pw = false ->
+  match passwd_get pl (a_name a) with
+  | None => a_pwreq a = false
+  | Some pwd => pwd <> kw_disable /\ (pwd = kw_none \/ (pw <> [] /\ pwd <> [] /\ cstr pw = cstr pwd))
+  end.
+Proof.
+  unfold check_password. destruct (passwd_get pl (a_name a)) as [pwd|]; [|auto].
+  destruct (list_eqb pwd kw_disable) eqn:E1; [discriminate|]. apply leqb_false in E1.
+  destruct (list_eqb pwd kw_none) eqn:E2; [apply leqb_true in E2; auto|].
+  destruct pw as [|p pw]; [discriminate|]. intros H. split; [exact E1|]. right.
+  unfold string_ne in H. destruct pwd as [|d pwd]; [discriminate|].
+  apply negb_false_iff, leqb_true in H. repeat split; try discriminate. exact H.
+Qed.
+
+Definition field_char (c : N) : bool := negb (memb c mgr_field_stop).
+
+(* what ParseUrl accepted *)
+Lemma parse_url_action menu pl path a :
+  parse_url menu pl path = UAction a -> lenN path < npos ->
+  In a menu
+  /\ (action_protection pl a = Public \/ action_protection pl a = Protected)
+  /\ exists nm rest,
+       path = mgr_prefix ++ nm ++ rest
+       /\ forallb field_char nm = true
+       /\ match rest with [] => True | c :: _ => field_char c = false end
+       /\ a_name a = match nm with [] => kw_index | _ => nm end.
+Proof.
+  unfold parse_url, tok_skip. intros H Hlen.
+  destruct (starts_with path mgr_prefix) eqn:E0; [|discriminate].
+  apply starts_with_split in E0. destruct E0 as [b0 Hp]. subst path. rewrite dropN_app_exact in H.
+  assert (Hlen0 : lenN b0 < npos) by (rewrite lenN_app in Hlen; lia).
+  destruct (negb (lenN mgr_prefix =? 0)); [|discriminate].
+  fold field_char in H.
+  destruct (tok_prefix field_char npos b0) as [[nm b1]|] eqn:E1.
+  - destruct (find_action menu nm) as [a'|] eqn:E2; [|discriminate].
+    apply find_some in E2. destruct E2 as [Hin Hnm]. apply leqb_true in Hnm.
+    assert (Hprot : (action_protection pl a' = Public \/ action_protection pl a' = Protected) /\ a' = a).
+    { destruct (action_protection pl a'); try discriminate; (split; [auto|]);
+        destruct (tok_skipChar 63 b1) as [[|] b2]; try destruct (query_parse _ b2) as [b3| |];
+        try discriminate; try (destruct b3 as [|c b3]; [|destruct (c =? 35)]; congruence);
+        try (destruct b1 as [|c b1']; [|destruct (c =? 35)]; congruence). }
+    destruct Hprot as [Hprot ->]. split; [exact Hin|]. split; [exact Hprot|].
+    apply tok_prefix_sound in E1. destruct E1 as (Happ & Hne & Hall & Hle & Hstop).
+    exists nm, b1. subst b0. repeat split; try assumption.
+    + destruct Hstop as [Hl|Hs]; [rewrite lenN_app in Hlen0; lia|]. destruct b1; [exact I|exact Hs].
+    + destruct nm; [congruence|exact Hnm].
+  - destruct (find_action menu kw_index) as [a'|] eqn:E2; [|discriminate].
+    apply find_some in E2. destruct E2 as [Hin Hnm]. apply leqb_true in Hnm.
+    assert (Hprot : (action_protection pl a' = Public \/ action_protection pl a' = Protected) /\ a' = a).
+    { destruct (action_protection pl a'); try discriminate; (split; [auto|]);
+        destruct (tok_skipChar 63 b0) as [[|] b2]; try destruct (query_parse _ b2) as [b3| |];
+        try discriminate; try (destruct b3 as [|c b3]; [|destruct (c =? 35)]; congruence);
+        try (destruct b0 as [|c b0']; [|destruct (c =? 35)]; congruence). }
+    destruct Hprot as [Hprot ->]. split; [exact Hin|]. split; [exact Hprot|].
+    exists [], b0. cbn [app]. repeat split; try assumption.
+    apply tok_prefix_none in E1. destruct E1 as [E|[E|E]]; [subst b0; exact I|discriminate E|].
+    destruct b0; [exact I|exact E].
 Qed.
